@@ -1,11 +1,12 @@
 """C08: compliance flags gate every Go function; iosafe means no outside access.  Gate.tla over an inventory extracted
 from the real runtime (dynamic scan through the verif accessor) and its sources (static reachability of OS primitives)."""
-import json, os, re, sys, random, glob
+import json, os, re, sys, random, glob, time
 sys.path.insert(0, os.path.join(os.path.dirname(os.path.abspath(__file__)), "..", "lib"))
 from vlib import *
 
 SCANNER = r'''
 local seen = {}
+local later
 local function walk(v, path, depth)
   local tv = type(v)
   if tv == "function" then
@@ -17,21 +18,32 @@ local function walk(v, path, depth)
   elseif tv == "table" then
     if depth < 5 and not seen[v] then
       seen[v] = true
-      for k, x in pairs(v) do
-        if type(k) == "string" then walk(x, path .. "[" .. string.format("%q", k) .. "]", depth + 1) end
+      local keys = {}
+      for k in pairs(v) do if type(k) == "string" then keys[#keys + 1] = k end end
+      table.sort(keys)      -- a determined traversal: the same function is always reported under the same path
+      for _, k in ipairs(keys) do
+        walk(v[k], path .. "[" .. string.format("%q", k) .. "]", depth + 1)
       end
       local mt = getmetatable(v)
       if type(mt) == "table" then walk(mt, "getmetatable(" .. path .. ")", depth + 1) end
     end
   elseif tv == "userdata" or tv == "string" then
-    local mt = getmetatable(v)
-    if type(mt) == "table" then walk(mt, "getmetatable(" .. path .. ")", depth + 1) end
+    -- metatables of values met on the way are looked at last, so that a library function is reported under its library
+    if later then later[#later + 1] = {v, path, depth}
+    else
+      local mt = getmetatable(v)
+      if type(mt) == "table" then walk(mt, "getmetatable(" .. path .. ")", depth + 1) end
+    end
   end
 end
+later = {}
 walk(_G, "_G", 0)
 walk(package.loaded, "package.loaded", 0)
+local q = later
+later = nil
 walk("", '("")', 0)
 walk(io.stdout, "io.stdout", 0)
+for _, x in ipairs(q) do walk(x[1], x[2], x[3]) end
 for _, expr in ipairs{'string.gmatch("a", "a")', 'pairs({})', 'ipairs({})', 'io.lines("existing.txt")', 'utf8.codes("a")',
                       'coroutine.wrap(function() end)', 'io.open("existing.txt"):lines()', 'select(2, pcall(runtime.context))',
                       'getmetatable(runtime.context())'} do
@@ -85,10 +97,41 @@ def static_classes():
 
 
 POOL = ['"existing.txt"', '"new.txt"', '"sub"', '"touch pwned.txt"', '"w"', '"a"', "1", "{}"]
+FLAGS = ["memsafe", "cpusafe", "iosafe", "timesafe"]
+QUICKSETS = [[], ["iosafe"], ["cpusafe"], ["memsafe"], ["timesafe"], ["memsafe", "cpusafe", "iosafe", "timesafe"]]
+
+# hard limits of a context definition: generous when the context is meant to end by itself, small when it has to be
+# terminated by the limit (exit = "kill")
+BIG = {"cpu": "cpu = 100000000", "mem": "memory = 1000000000", "ms": "millis = 600000"}
+SMALL = {"cpu": "cpu = 300000", "mem": "memory = 500000", "ms": "millis = 40"}
+KILLCODE = {"none": "runtime.killcontext()", "cpu": "while true do end", "ms": "while true do end",
+            "mem": 'do local s = "xxxxxxxx" while true do s = s .. s end end'}
 
 
-def call_chunk(path, tuples, req, inner=None):
-    """the function is obtained OUTSIDE the restricted context; the calls happen inside runtime.callcontext{flags=req}"""
+def lua_def(d, small=False):
+    parts = []
+    if d["flags"]:
+        parts.append('flags = "%s"' % " ".join(sorted(d["flags"])))
+    if d["lim"] != "none":
+        parts.append("kill = {%s}" % (SMALL if small else BIG)[d["lim"]])
+    return "{" + ", ".join(parts) + "}"
+
+
+def chain_call(ch, bodyname, kill=False):
+    """Lua statement running <bodyname> in the innermost context of the chain; emits ("ctx", status of the innermost)"""
+    inner = 'emit("ctx", tostring(runtime.callcontext(%s, %s)))' % (lua_def(ch[-1], small=kill), bodyname)
+    for d in reversed(ch[:-1]):
+        inner = "runtime.callcontext(%s, function() %s end)" % (lua_def(d), inner)
+    return inner
+
+
+PRELUDE = ("local function show(v) if type(v) == 'string' then return v end return type(v) end\n"
+           "local iotype, pc, pack = io.type, pcall, table.pack\n"
+           "local function closeres(r) if iotype(r) == 'file' then pc(r.close, r) end end\n")
+
+
+def call_chunk(path, tuples, ch):
+    """the function is obtained OUTSIDE the restricted context; the calls happen inside the innermost context of the chain"""
     out = ["local f = %s" % path,
            "local function show(v) if type(v) == 'string' then return v end return type(v) end",
            "local iotype, pc = io.type, pcall",
@@ -98,17 +141,202 @@ def call_chunk(path, tuples, req, inner=None):
                    "if iotype(r[2]) == 'file' then pc(r[2].close, r[2]) end end" % ("".join(", " + a for a in t), i))
     out.append('  emit("alive")')
     out.append("end")
-    if inner is None or inner.get("none"):
-        out.append('emit("ctx", runtime.callcontext({flags = "%s"}, body))' % " ".join(req))
-    else:
-        kill = []
-        if inner["cpu"]:
-            kill.append("cpu = 100000000")
-        if inner["mem"]:
-            kill.append("memory = 1000000000")
-        idef = '{flags = "%s"%s}' % (" ".join(sorted(inner["flags"])), (", kill = {%s}" % ", ".join(kill)) if kill else "")
-        out.append('emit("ctx", runtime.callcontext({flags = "%s"}, function() return runtime.callcontext(%s, body) end))' % (" ".join(req), idef))
+    out.append(chain_call(ch, "body"))
     return "\n".join(out) + "\n"
+
+
+# ---------------------------------------------------------------------------------------------------------------------
+# rendering of the routes of Gate.tla.  A rendering only fixes the SHAPE of the Lua program (how the handler H is
+# installed and which operation triggers it); which routes exist, what they need and what has to happen is the spec's.
+#   args:  "free"  the triggering operation passes arguments of our choice to H (go mode: one trigger per tuple)
+#          "str1"  one string argument of our choice
+#          "fixed" the arguments are determined by the operation
+#   out:   statements before the context is entered;   code: body of the function whose pcall is the "site"
+#   ret:   what a handler has to return for the operation to succeed (given to the probe / returned by the Lua closure)
+# placeholders: @H handler, @I function index, @A arguments "a, b", @CA the same with a leading comma when non-empty
+
+def _mm(ev, code, ret="nil"):
+    return {"args": "fixed", "ret": ret,
+            "out": "local mt@I = {%s = @H}; local a@I, b@I = setmetatable({}, mt@I), setmetatable({}, mt@I)" % ev,
+            "code": code.replace("@a", "a@I").replace("@b", "b@I")}
+
+
+def _cl(code, ret="nil"):
+    return {"args": "fixed", "ret": ret, "out": "local cv@I = setmetatable({}, {__close = @H})", "code": code.replace("cv", "cv@I")}
+
+
+HOOKCO = "local co = coroutine.create(function()\n local x = type(1)\n return x\n end) debug.sethook(co, @H, \"%s\") coroutine.resume(co)"
+
+RENDER = {
+    "call": {"args": "free", "code": "local r = pack(@H(@A)) closeres(r[1]) return r[1]"},
+    "tailcall": {"args": "free", "code": "return @H(@A)"},
+    "method": {"args": "free", "code": "local t = {m = @H} local r = pack(t:m(@A)) closeres(r[1])"},
+    "strmethod": {"args": "fixed", "out": 'string["zz@I"] = @H', "code": 'return ("touch pwned.txt"):zz@I()'},
+    "pcall": {"args": "free", "code": "local r = pack(pc(@H@CA)) closeres(r[2]) if not r[1] then error(r[2], 0) end"},
+    "xpcall": {"args": "free", "code": "local r = pack(xpcall(@H, function(m) return m end@CA)) closeres(r[2]) if not r[1] then error(r[2], 0) end"},
+    "xpcall-handler": {"args": "str1", "code": "return xpcall(error, @H, @A)"},
+    "co-wrap": {"args": "free", "code": "local r = pack(coroutine.wrap(@H)(@A)) closeres(r[1])"},
+    "co-resume": {"args": "free", "code": "local r = pack(coroutine.resume(coroutine.create(@H)@CA)) closeres(r[2]) if not r[1] then error(r[2], 0) end"},
+    "load-chunk": {"args": "free", "code": 'local r = pack(assert(load("local h = ...; return h(select(2, ...))"))(@H@CA)) closeres(r[1])'},
+    "load-reader": {"args": "fixed", "code": "assert(load(@H))"},
+    "for-iter": {"args": "free", "code": "for x in @H@CA do closeres(x) break end"},
+    "ctx-body": {"args": "free", "code": 'local r = pack(runtime.callcontext({}, @H@CA)) closeres(r[2]) assert(tostring(r[1]) == "done")'},
+    "sort-cmp": {"args": "fixed", "code": "table.sort({2, 1, 3}, @H)"},
+    "gsub-repl": {"args": "str1", "code": 'return string.gsub(@A, ".+", @H)'},
+    "hook-call": {"args": "fixed", "code": HOOKCO % "c"},
+    "hook-return": {"args": "fixed", "code": HOOKCO % "r"},
+    "hook-line": {"args": "fixed", "code": HOOKCO % "l"},
+    "mm-index": _mm("__index", "return @a.k"),
+    "mm-newindex": _mm("__newindex", "@a.k = 1"),
+    "mm-call": _mm("__call", "return @a(1)"),
+    "mm-eq": _mm("__eq", "return @a == @b"),
+    "mm-lt": _mm("__lt", "return @a < @b"),
+    "mm-le": _mm("__le", "return @a <= @b"),
+    "mm-concat": _mm("__concat", 'return @a .. "x"'),
+    "mm-len": _mm("__len", "return #@a"),
+    "mm-unm": _mm("__unm", "return -@a"),
+    "mm-add": _mm("__add", "return @a + 1"),
+    "mm-sub": _mm("__sub", "return @a - 1"),
+    "mm-mul": _mm("__mul", "return @a * 1"),
+    "mm-div": _mm("__div", "return @a / 1"),
+    "mm-mod": _mm("__mod", "return @a % 1"),
+    "mm-pow": _mm("__pow", "return @a ^ 1"),
+    "mm-idiv": _mm("__idiv", "return @a // 1"),
+    "mm-band": _mm("__band", "return @a & 1"),
+    "mm-bor": _mm("__bor", "return @a | 1"),
+    "mm-bxor": _mm("__bxor", "return @a ~ 1"),
+    "mm-shl": _mm("__shl", "return @a << 1"),
+    "mm-shr": _mm("__shr", "return @a >> 1"),
+    "mm-bnot": _mm("__bnot", "return ~@a"),
+    "mm-tostring": _mm("__tostring", "return tostring(@a)", '"s"'),
+    "mm-tostring-format": _mm("__tostring", 'return string.format("%s", (@a))', '"s"'),
+    "mm-tostring-print": _mm("__tostring", "print(@a)", '"s"'),
+    "mm-pairs": _mm("__pairs", "for k in pairs(@a) do break end", "function() end"),
+    "mm-index-unpack": _mm("__index", "return table.unpack(@a, 1, 1)"),
+    "mm-index-ipairs": _mm("__index", "for i, v in ipairs(@a) do break end"),
+    "mm-len-unpack": _mm("__len", "return table.unpack(@a)", "0"),
+    "mm-newindex-insert": _mm("__newindex", "table.insert(@a, 1)"),
+    "mm-lt-sort": _mm("__lt", "table.sort({@a, @b})"),
+    "close-scope": _cl("do local x <close> = cv end"),
+    "close-return": _cl("return (function() local x <close> = cv return 1 end)()"),
+    "close-break": _cl("for i = 1, 1 do local x <close> = cv break end"),
+    "close-error": _cl('pc(function() local x <close> = cv error("e") end)'),
+    "close-for": _cl("for k in next, {1}, nil, cv do end"),
+    "close-coclose": _cl("local co = coroutine.create(function() local x <close> = cv coroutine.yield() end) coroutine.resume(co) assert(coroutine.close(co))"),
+    "close-co-error": _cl('local co = coroutine.wrap(function() local x <close> = cv error("e") end) pc(co)'),
+    # pending in the body of the context when it ends: a statement of the body itself, no site
+    "ctxclose-error": {"args": "fixed", "out": "local cv@I = setmetatable({}, {__close = @H})", "stmt": "local x@I <close> = cv@I"},
+    "ctxclose-kill": {"args": "fixed", "out": "local cv@I = setmetatable({}, {__close = @H})", "stmt": "local x@I <close> = cv@I"},
+}
+for _k, _obj in (("table", "setmetatable({}, {__gc = @H})"), ("udata", "newres(@I, @H)")):
+    RENDER["gc-%s-return" % _k] = {"args": "fixed", "stmt": "local keep@I = " + _obj}
+    RENDER["gc-%s-error" % _k] = {"args": "fixed", "stmt": "local keep@I = " + _obj}
+    RENDER["gc-%s-kill" % _k] = {"args": "fixed", "stmt": "local keep@I = " + _obj}
+    RENDER["gc-%s-collect" % _k] = {"args": "fixed", "stmt": ";(function() local v = %s end)()" % _obj,
+                                    "tail": "gogc() for i = 1, 20 do local t = {} end"}
+
+
+def route_program(fns, route, mode, exit_, ch, tuples):
+    """fns: list of (index, Lua expression of the function given the value its handler has to return).  One program
+    exercises the route once per function (probes share a program, a library function gets its own)."""
+    R = RENDER[route]
+    ret = R.get("ret", "nil")
+    if R["args"] == "free":
+        tl = tuples
+    elif R["args"] == "str1":
+        tl = [t for t in tuples if len(t) == 1 and t[0].startswith('"')]
+    else:
+        tl = [()]
+    out = [PRELUDE]
+    body = []
+    for fi, fexpr in fns:
+        out.append("local F%d = %s" % (fi, fexpr(ret)))
+        if mode == "go":
+            out.append("local H%d = F%d" % (fi, fi))
+            trig = tl
+        else:
+            out.append("local function H%d(...)" % fi)
+            for i, t in enumerate(tuples):
+                out.append('  do local r = pack(pc(F%d%s)) emit("c", %d, %d, r[1], show(r[2])) closeres(r[2]) end'
+                           % (fi, "".join(", " + a for a in t), fi, i))
+            out.append("  return %s" % ret)
+            out.append("end")
+            trig = tl[:1]
+        sub = lambda s, t=(): (s.replace("@H", "H%d" % fi).replace("@I", str(fi)).replace("@CA", "".join(", " + a for a in t))
+                               .replace("@A", ", ".join(t)))
+        if "out" in R:
+            out.append(sub(R["out"]))
+        if "stmt" in R:
+            body.append("  " + sub(R["stmt"]))
+        else:
+            for k, t in enumerate(trig):
+                body.append('  emit("s", %d, %d, (pc(function() %s end)))' % (fi, k, sub(R["code"], t)))
+    out.append("local function body()")
+    out += body
+    if "tail" in R:
+        out.append("  " + R["tail"])
+    out.append('  emit("alive")')
+    if exit_ == "error":
+        out.append('  error("boom")')
+    elif exit_ == "kill":
+        out.append("  " + KILLCODE[ch[-1]["lim"]])
+    out.append("end")
+    out.append(chain_call(ch, "body", kill=(exit_ == "kill")))
+    out.append('emit("after")')
+    return "\n".join(out) + "\n"
+
+
+def run_cases(binary, cases, nproc=None, timeout_s=900):
+    """vlib.run_lua_cases, except that a driver process that ends with status 0 before it has answered every case is not
+    a machinery failure here: the code under test can call os.exit (which must have been refused).  The first case
+    without an answer is reported as a crash (with "exited": True) and the rest is run in a new process."""
+    import concurrent.futures as cf
+    nproc = nproc or NCPU
+    parts = [c for c in chunks(list(cases), nproc) if c]
+    results = {}
+
+    def work(part):
+        res = {}
+        rest = list(part)
+        guard = 0
+        while rest:
+            guard += 1
+            if guard > 200:
+                raise Infra("too many driver restarts")
+            rc, outs, err = run_driver(binary, ["lua-run"], rest, timeout=timeout_s)
+            got = set()
+            for o in outs:
+                if isinstance(o, dict) and "id" in o:
+                    res[o["id"]] = o
+                    got.add(o["id"])
+            if rc == -9:
+                raise Infra("driver timed out: %s" % err[-500:])
+            if rc == 3:
+                idx = max(i for i, c in enumerate(rest) if c["id"] in got)   # hung case reported as timeout; continue after it
+                rest = rest[idx + 1:]
+                continue
+            nxt = [i for i, c in enumerate(rest) if c["id"] not in got]
+            if not nxt:
+                break
+            i = nxt[0]
+            res[rest[i]["id"]] = {"id": rest[i]["id"], "crash": True, "rc": rc, "exited": rc in (0, 1), "stderr": err[-3000:], "events": []}
+            rest = rest[i + 1:]
+        return res
+
+    with cf.ThreadPoolExecutor(max_workers=nproc) as ex:
+        for r in ex.map(work, parts):
+            results.update(r)
+    return results
+
+
+def lua_key(path, name):
+    """dotted Lua name of an inventory path: _G["package"]["loaded"]["table"]["sort"] -> table.sort; others ~<go name>"""
+    if not path.startswith("_G[") and not path.startswith("package.loaded["):
+        return "~" + name
+    comps = re.findall(r'\["([^"]+)"\]', path)
+    while comps and comps[0] in ("_G", "package", "loaded"):
+        comps = comps[1:]
+    return ".".join(comps[-2:]) if comps else "~" + name
 
 
 def run(prop, tier):
@@ -122,9 +350,12 @@ def run(prop, tier):
     inv = []
     for e in o["events"]:
         path, fl, nm = e[1]["s"], e[2]["s"], e[3]["s"]
-        inv.append({"path": path, "flags": sorted(fl.split()), "name": nm})
+        if nm == "__probe":
+            continue
+        inv.append({"path": path, "flags": sorted(fl.split()), "name": nm, "kind": "lib"})
     if len(inv) < 100:
         raise Infra("inventory suspiciously small: %d functions" % len(inv))
+    inv.sort(key=lambda f: f["path"])          # the traversal order of the scan is not determined
     classes = static_classes()
     byname = {}
     for (pkg, nm), c in classes.items():
@@ -132,34 +363,84 @@ def run(prop, tier):
         byname[nm] = max(byname.get(nm, "pure"), c, key=["pure", "safeio", "os"].index)
     for f in inv:
         f["class"] = byname.get(f["name"], "pure")
-    cov["inventory"] = len(inv)
+        f["key"] = lua_key(f["path"], f["name"])
+    nlib = len(inv)
+    cov["inventory"] = nlib
     cov["inventory_by_class"] = {c: sum(1 for f in inv if f["class"] == c) for c in ("pure", "safeio", "os")}
     cov["undeclared_functions"] = sorted(f["path"] for f in inv if not f["flags"])[:40]
+    # probes: harness Go functions, one per subset of the flags, whose only effect is to record that they ran
+    import itertools
+    for r_ in range(5):
+        for c in itertools.combinations(FLAGS, r_):
+            inv.append({"path": None, "flags": sorted(c), "name": "probe[%s]" % "+".join(sorted(c)), "kind": "probe", "class": "pure", "key": "~probe"})
+    for i, f in enumerate(inv):
+        f["id"] = i + 1
+
+    def fexpr(f):
+        if f["kind"] == "probe":
+            return lambda ret, f=f: '__probe("%s", %d, %s)' % (" ".join(f["flags"]), f["id"], ret)
+        return lambda ret, f=f: f["path"]
     # ---- TLC over the inventory
-    allsets = [[], ["iosafe"], ["cpusafe"], ["memsafe"], ["timesafe"], ["memsafe", "cpusafe", "iosafe", "timesafe"]]
+    allsets = QUICKSETS
     if tier == "thorough":
-        import itertools
-        fl = ["memsafe", "cpusafe", "iosafe", "timesafe"]
-        allsets = [list(c) for r in range(5) for c in itertools.combinations(fl, r)]
+        allsets = [list(c) for r_ in range(5) for c in itertools.combinations(FLAGS, r_)]
     tset = lambda s: "{" + ", ".join('"%s"' % x for x in s) + "}"
+    tdef = lambda fl, lim: '[flags |-> %s, lim |-> "%s"]' % (tset(fl), lim)
+    inner_defs = [([], "cpu"), (["memsafe"], "none"), ([], "mem"), (["timesafe"], "none"), ([], "none"), ([], "ms")]
+    direct = ["<<%s>>" % tdef(s, "none") for s in allsets] + ["<<%s, %s>>" % (tdef(s, "none"), tdef(*d)) for s in allsets for d in inner_defs]
+    # routes whose handler runs synchronously: the verdict only depends on the required set (every set, with and without a
+    # hard limit; thorough: every kind of limit and the two nestings).  Routes that depend on how the context ends: every
+    # required set x every kind of hard limit (a context with a hard limit owns its finaliser pool), and two nestings: a
+    # flags-only context inside an owner, an owner inside a flags-only context
+    nestings = lambda sets: (["<<%s, %s>>" % (tdef(s, "cpu"), tdef(["iosafe"], "none")) for s in sets] +
+                             ["<<%s, %s>>" % (tdef(s, "none"), tdef([], "mem")) for s in sets])
+    exitc = ["<<%s>>" % tdef(s, lim) for s in allsets for lim in ("none", "cpu", "mem", "ms")] + nestings(allsets)
+    plainc = ["<<%s>>" % tdef(s, lim) for s in allsets for lim in ("none", "cpu")]
+    if tier == "thorough":
+        plainc += ["<<%s>>" % tdef(s, lim) for s in QUICKSETS for lim in ("mem", "ms")] + nestings(QUICKSETS)
     mc = os.path.join(scratch(), "GateMC.tla")
     with open(mc, "w") as f:
         f.write("------------------------------ MODULE GateMC ------------------------------\nEXTENDS Gate\n")
         f.write("DeclaredC == <<%s>>\n" % ", ".join(tset(x["flags"]) for x in inv))
         f.write("ClassC == <<%s>>\n" % ", ".join('"%s"' % x["class"] for x in inv))
-        f.write("ReqSetsC == {%s}\n" % ", ".join(tset(s) for s in allsets))
-        f.write('InnerDefsC == {[flags |-> {}, cpu |-> TRUE, mem |-> FALSE], [flags |-> {"memsafe"}, cpu |-> FALSE, mem |-> FALSE], '
-                '[flags |-> {}, cpu |-> FALSE, mem |-> TRUE], [flags |-> {"timesafe"}, cpu |-> FALSE, mem |-> FALSE], [flags |-> {}, cpu |-> FALSE, mem |-> FALSE]}\n')
+        f.write("KindC == <<%s>>\n" % ", ".join('"%s"' % x["kind"] for x in inv))
+        f.write("KeyC == <<%s>>\n" % ", ".join('"%s"' % x["key"] for x in inv))
+        f.write("DirectChainsC == {%s}\n" % ", ".join(direct))
+        f.write("PlainChainsC == {%s}\n" % ", ".join(plainc))
+        f.write("ExitChainsC == {%s}\n" % ", ".join(exitc))
         f.write("=============================================================================\n")
     cfgp = os.path.join(scratch(), "GateMC.cfg")
     with open(cfgp, "w") as f:
-        f.write("SPECIFICATION Spec\nINVARIANT RefusedBeforeEffect\nCHECK_DEADLOCK FALSE\nCONSTANTS\n  NFn = %d\n  Declared <- DeclaredC\n  Class <- ClassC\n  ReqSets <- ReqSetsC\n  InnerDefs <- InnerDefsC\n" % len(inv))
+        f.write("SPECIFICATION Spec\nINVARIANT RefusedBeforeEffect\nINVARIANT RouteIndependence\nCHECK_DEADLOCK FALSE\nCONSTANTS\n  NFn = %d\n  Declared <- DeclaredC\n"
+                "  Class <- ClassC\n  Kind <- KindC\n  Key <- KeyC\n  DirectChains <- DirectChainsC\n  PlainChains <- PlainChainsC\n  ExitChains <- ExitChainsC\n"
+                "  AllLibOnRoutes = %s\n  StrictGc = %s\n"
+                % (len(inv), "TRUE" if tier == "thorough" else "FALSE", "TRUE" if os.environ.get("VERIF_GATE_STRICT_GC") else "FALSE"))
     lines = []
-    res = run_tlc("GateMC", "GateMC.cfg", extra_files=[mc, cfgp], on_line=lines.append, timeout=900)
-    if res.violation:
-        raise Infra("Gate.tla: %s" % res.violation)
-    cov["states"], cov["transitions"] = res.distinct, res.generated
-    leads = [l for l in lines if l["iosafelead"]]
+    t0 = time.time()
+    cache = os.environ.get("VERIF_GATE_LINES")      # development aid only: reuse the emission of a previous TLC run
+    if cache and os.path.exists(cache):
+        lines = json.load(open(cache))
+        cov["states"] = cov["transitions"] = len(lines)
+    else:
+        res = run_tlc("GateMC", "GateMC.cfg", extra_files=[mc, cfgp], on_line=lines.append, timeout=1500,
+                      workers=int(os.environ.get("VERIF_TLC_WORKERS", "0")) or None)
+        log("[gate] TLC: %d emitted lines in %.1fs" % (len(lines), time.time() - t0))
+        if res.violation:
+            raise Infra("Gate.tla: %s" % res.violation)
+        cov["states"], cov["transitions"] = res.distinct, res.generated
+        if cache:
+            json.dump(lines, open(cache, "w"))
+    dlines = [l for l in lines if l["fam"] == "direct"]
+    # one emitted line per (route, mode, chain) with the expectation for every function: flatten
+    rlines = []
+    for l in lines:
+        if l["fam"] == "route":
+            for x in l["fns"]:
+                d = {k: v for k, v in l.items() if k != "fns"}
+                d.update(x)
+                rlines.append(d)
+    cov["route_steps"] = sum(1 for l in lines if l["fam"] == "route")
+    leads = [l for l in dlines if l["iosafelead"]]
     cov["static_iosafe_leads"] = sorted(set(inv[l["f"] - 1]["path"] for l in leads))
     # ---- dynamic: every (function, required set) with argument tuples from the pool, in a sentinel directory
     tuples = [()] + [(a,) for a in POOL] + [(a, b) for a in POOL for b in POOL]
@@ -167,18 +448,55 @@ def run(prop, tier):
         rng = random.Random(seed())
         tuples = [()] + [(a,) for a in POOL] + rng.sample([(a, b) for a in POOL for b in POOL], 24)
     cases, meta = [], []
-    for l in lines:
+    for l in dlines:
         f = inv[l["f"] - 1]
         if f["name"] == "exit" and l["exp"] == "runs":
             continue    # os.exit would end the driver itself
-        nested = not l["inner"].get("none")
+        nested = len(l["ch"]) > 1
         if nested and tier == "quick" and f["class"] == "pure" and (l["f"] % 7) != 0:
             continue   # quick tier: nested contexts for every function that can reach the outside, and a sample of the pure ones
-        cases.append({"id": len(cases), "src": call_chunk(f["path"], tuples if not nested else tuples[:12], sorted(l["outer"]), l["inner"]), "sandbox": True,
+        ntup = len(tuples) if not nested else min(12, len(tuples))
+        cases.append({"id": len(cases), "src": call_chunk(fexpr(f)("nil"), tuples[:ntup], l["ch"]), "sandbox": True, "helpers": True,
                       "timeout": 20000, "maxev": 100000})
-        meta.append((f, l))
-    outs = run_lua_cases(drv, cases, nproc=max(2, NCPU // 2))
-    for i, (f, l) in enumerate(meta):
+        meta.append((f, l, ntup))
+    ndirect = len(cases)
+    # ---- routes: the probes of one (route, mode, chain) and the library functions that cannot run there share a program, and
+    # so do the library functions that may run but for which the spec excludes any outside effect (a program in which
+    # something goes wrong is run again function by function); a library function that may have an effect gets its own
+    rtuples = tuples if tier == "thorough" else tuples[:9] + tuples[9:][:6]
+    unavailable = 0
+    groups = {}
+    for l in rlines:
+        if l["route"] not in RENDER:
+            raise Infra("Gate.tla emitted a route this check cannot render: %s" % l["route"])
+        if l["missing"]:
+            raise Infra("route %s needs %s, which the inventory scan did not find under that name" % (l["route"], l["missing"]))
+        if not l["available"]:
+            unavailable += 1      # a carrier of the route is itself refused in that context: the route does not exist there
+            continue
+        f = inv[l["f"] - 1]
+        if f["name"] == "exit" and "runs" in l["exp"]:
+            continue    # os.exit would end the driver itself
+        if f["kind"] == "probe" or "runs" not in l["exp"]:
+            kind = "known"        # behaviour fully determined by the spec: a probe, or a function that cannot run
+        else:
+            kind = "quiet" if l["noeffect"] else f["id"]
+        gkey = (l["route"], l["mode"], json.dumps(l["ch"], sort_keys=True), kind)
+        groups.setdefault(gkey, []).append((f, l))
+    cov["route_cases_unavailable"] = unavailable
+
+    def mkcase(members, cid):
+        l0 = members[0][1]
+        src = route_program([(f["id"], fexpr(f)) for f, _ in members], l0["route"], l0["mode"], l0["exit"], l0["ch"], rtuples)
+        return {"id": cid, "src": src, "sandbox": True, "helpers": True, "timeout": 20000, "maxev": 100000}
+    rmeta = []
+    for gkey, members in groups.items():
+        cases.append(mkcase(members, len(cases)))
+        rmeta.append(members)
+    t0 = time.time()
+    outs = run_cases(drv, cases, nproc=max(2, NCPU // 2))
+    log("[gate] %d direct programs + %d route programs run in %.1fs" % (ndirect, len(rmeta), time.time() - t0))
+    for i, (f, l, ntup) in enumerate(meta):
         o = outs[i]
         cov["traces_validated_against_impl"] += 1
         req = sorted(l["req"])
@@ -193,25 +511,146 @@ def run(prop, tier):
             evs = o["events"]
             alive = any(e == [{"s": "alive"}] for e in evs)
             calls = [e for e in evs if isinstance(e[0], dict) and "i" in e[0]]
+            probed = sum(1 for e in evs if e and e[0] == {"s": "probe"})
             if l["exp"] == "flag-error":
                 if not alive:
                     why = ("context-not-alive", o.get("errstr", "")[:200])
-                elif any(e[1] is not False for e in calls) or len(calls) != (len(tuples) if l["inner"].get("none") else min(12, len(tuples))):
+                elif any(e[1] is not False for e in calls) or len(calls) != ntup or probed:
                     why = ("not-refused", "a call with required flags %s succeeded or did not fail ordinarily" % req)
                 elif o.get("fs_changes"):
                     why = ("effect-before-refusal", str(o["fs_changes"]))
             else:
                 if "iosafe" in req and o.get("fs_changes"):
                     why = ("effect-under-iosafe", str(o["fs_changes"]))
-                elif not alive and not (o.get("status") == "killed"):
-                    pass   # the function may legitimately raise out of pcall? no: pcall catches everything but kills
+                elif f["kind"] == "probe" and (probed != ntup or not alive or any(e[1] is not True for e in calls)):
+                    why = ("refused-but-declared", "a probe that declared %s did not run %d times under %s" % (f["flags"], ntup, req))
         if why:
-            rep.violation({"kind": why[0], "fn": f["name"], "req": "+".join(req), "nested": not l["inner"].get("none")},
+            rep.violation({"kind": why[0], "fn": f["name"], "req": "+".join(req), "nested": len(l["ch"]) > 1, "route": "direct"},
                           {"cmd": "lua-run", "src": cases[i]["src"][:3000], "flags": req, "function": f, "observed": {k: v for k, v in o.items() if k != "events"},
                            "why": why[1], "static_class": f["class"]})
+    # ---- compare the routes
+    def judge(members, o):
+        """-> list of (f, l, why or None) for the members of one program"""
+        evs = o.get("events") or []
+        probes, calls, sites = {}, {}, {}
+        status, alive = None, False
+        for e in evs:
+            tag = e[0].get("s") if e and isinstance(e[0], dict) else None
+            if tag == "probe":
+                k = int(e[1]["i"]); probes[k] = probes.get(k, 0) + 1
+            elif tag == "c":
+                calls.setdefault(int(e[1]["i"]), []).append(e[3])
+            elif tag == "s":
+                sites.setdefault(int(e[1]["i"]), []).append(e[3])
+            elif tag == "ctx":
+                status = e[1].get("s") if isinstance(e[1], dict) else None
+            elif tag == "alive":
+                alive = True
+        res = []
+        for f, l in members:
+            exp = set(l["exp"])
+            req = sorted(l["req"])
+            fi = f["id"]
+            why = None
+            c, s_, p = calls.get(fi, []), sites.get(fi, []), probes.get(fi, 0)
+            if o.get("crash") or o.get("panic"):
+                why = ("crash", (o.get("panic") or ("the process exited with status %s" % o.get("rc") if o.get("exited") else o.get("stderr", "")))[:300])
+            elif o.get("timeout"):
+                if "runs" not in exp:
+                    why = ("hang", "a program in which the function cannot run did not end")
+            else:
+                ran = p > 0 or any(x is True for x in c) or (l["mode"] == "go" and l["prop"] and any(x is True for x in s_))
+                if ran and "runs" not in exp:
+                    why = ("not-refused" if "refused" in exp else "ran-in-terminated-context",
+                           "the function ran (%d probe events, %d successful calls) but the spec allows only %s" % (p, sum(1 for x in c if x is True), sorted(exp)))
+                elif exp == {"notreached"} and c:
+                    why = ("ran-in-terminated-context", "the handler was run: %d calls" % len(c))
+                elif exp == {"refused"} and l["mode"] == "lua" and not c:
+                    why = ("handler-not-run", "the Lua handler of the route was never run")
+                elif exp == {"runs"} and f["kind"] == "probe" and p == 0:
+                    why = ("refused-but-declared", "a probe that declared %s did not run under %s" % (f["flags"], req))
+                elif l["site"] == "fails" and (not s_ or any(x is not False for x in s_)):
+                    why = ("site-did-not-fail", "the operation that triggers the refused handler did not raise an ordinary error: %s" % s_)
+                elif l["site"] == "succeeds" and (not s_ or any(x is not True for x in s_)):
+                    why = ("site-failed", "the operation that triggers the allowed probe failed: %s" % s_)
+                elif l["noeffect"] and o.get("fs_changes"):
+                    why = ("effect", str(o["fs_changes"]))
+                elif not alive:
+                    why = ("context-not-alive", "the body of the context did not get to its end: %s" % (o.get("errstr", "")[:200]))
+                elif (f["kind"] == "probe" or "runs" not in exp) and status != l["status"]:
+                    why = ("context-status", "the innermost context ended %s, expected %s" % (status, l["status"]))
+            res.append((f, l, why, {"probe": p, "calls": c, "sites": s_, "status": status}))
+        return res
+
+    def report(f, l, why, obs, o, src):
+        req = sorted(l["req"])
+        rep.violation({"kind": why[0], "fn": f["name"], "req": "+".join(req), "nested": len(l["ch"]) > 1, "route": l["route"], "mode": l["mode"],
+                       "owns_pool": l["owner"] == len(l["ch"])},
+                      {"cmd": "lua-run", "src": src[:6000], "flags": req, "function": dict(f), "chain": l["ch"], "expected": l,
+                       "observed": {k: v for k, v in o.items() if k != "events"}, "events_of_function": obs,
+                       "why": why[1], "static_class": f["class"]})
+
+    byroute, wall, anomalies = {}, {}, {}
+    again = []
+    for gi, members in enumerate(rmeta):
+        ci = ndirect + gi
+        res = judge(members, outs[ci])
+        wall[members[0][1]["route"]] = wall.get(members[0][1]["route"], 0) + outs[ci].get("wall_ms", 0)
+        for f, l, why, obs in res:
+            cov["traces_validated_against_impl"] += 1
+            byroute[l["route"]] = byroute.get(l["route"], 0) + 1
+        if any(why for _, _, why, _ in res):
+            if len(members) == 1:
+                f, l, why, obs = res[0]
+                report(f, l, why, obs, outs[ci], cases[ci]["src"])
+            else:
+                again += [(gi, [m]) for m in members]     # attribute precisely: one program per function
+                for f, l, why, obs in res:
+                    if why:
+                        k = "%s/%s/%s" % (why[0], l["route"], "probes" if f["kind"] == "probe" else "lib")
+                        anomalies[k] = anomalies.get(k, 0) + 1
+                        if len(anomalies) <= 3 and anomalies[k] == 1:
+                            log("[gate] anomaly in a shared program, to be confirmed per function: %s %s: %s" % (k, f["name"], why[1][:300]))
+    cov["route_programs_rerun_per_function"] = len(again)
+    cov["shared_program_anomalies"] = anomalies
+    if again:
+        cases2 = [mkcase(m, i) for i, (gi, m) in enumerate(again)]
+        outs2 = run_cases(drv, cases2, nproc=max(2, NCPU // 2))
+        nrep, confirmed = 0, set()
+        for i, (gi, m) in enumerate(again):
+            f, l, why, obs = judge(m, outs2[i])[0]
+            if why:
+                nrep += 1
+                confirmed.add(gi)
+                report(f, l, why, obs, outs2[i], cases2[i]["src"])
+        cov["rerun_per_function_reproduced"] = nrep
+        lost = sorted(set(gi for gi, _ in again) - confirmed)
+        if lost:
+            # something went wrong in a shared program and in none of its functions taken alone: that is a defect of the
+            # rendering (or an interference between the functions), not a verdict
+            l0 = rmeta[lost[0]][0][1]
+            raise Infra("%d shared programs misbehaved but none of their functions does alone, e.g. route %s mode %s chain %s:\n%s"
+                        % (len(lost), l0["route"], l0["mode"], l0["ch"], cases[ndirect + lost[0]]["src"][:1500]))
+    cov["direct_cases"] = ndirect
+    cov["route_cases"] = sum(len(m) for m in rmeta)
+    cov["route_programs"] = len(rmeta)
+    cov["route_cases_by_route"] = dict(sorted(byroute.items()))
+    cov["route_wall_ms_by_route"] = dict(sorted(wall.items()))
+    cov["route_cases_by_expectation"] = {}
+    for members in rmeta:
+        for f, l in members:
+            k = "+".join(sorted(l["exp"])) + ("/probe" if f["kind"] == "probe" else "/lib")
+            cov["route_cases_by_expectation"][k] = cov["route_cases_by_expectation"].get(k, 0) + 1
+    cov["route_library_functions"] = sorted(set(f["path"] for m in rmeta for f, l in m if f["kind"] == "lib"))
     rep.sample({"function": inv[0], "required": allsets[1], "argument_tuples": len(tuples)})
-    cov["explanation"] = ("inventory of %d Go functions reachable from _G, package.loaded, metatables and iterators; TLC gives the expected outcome for every "
-                          "(function, required flag set); each is called with %d argument tuples in a sentinel directory" % (len(inv), len(tuples)))
+    if rmeta:
+        f0, l0 = rmeta[0][0]
+        rep.sample({"route_case": {k: l0[k] for k in ("route", "mode", "ch", "exp", "site", "status")}, "function": f0["name"]})
+    cov["explanation"] = ("inventory of %d Go functions reachable from _G, package.loaded, metatables and iterators, plus 16 probe functions (one per declared flag set); "
+                          "TLC gives the expected outcome for every (function, context chain) called directly with %d argument tuples in a sentinel directory, and for "
+                          "every (function, route, mode, context chain) of the route family" % (nlib, len(tuples)))
     rep.assumptions += ["outside effects are observed as changes of a sentinel directory (files created/modified/deleted, including by spawned commands); network and plugin effects are not observable here",
-                        "the static effect class is a regex reading of the sources and only produces leads"]
+                        "the static effect class is a regex reading of the sources and only produces leads",
+                        "a finaliser of a value created in a context without a hard limit runs in whichever context sharing the finaliser pool is current when it is collected "
+                        "(at the latest when the owner of the pool ends): the spec accepts the verdict of any of them (StrictGc = FALSE)"]
     return rep.finish()
